@@ -19,6 +19,14 @@ pub trait Sc:
     fn powf(self, e: f64) -> Self;
     /// the same value treated as a constant (no derivative flows through it)
     fn detach(self) -> Self;
+    /// straight-through rectifier of a user operation: the value of relu, the derivative of the identity
+    fn ste_relu(self) -> Self {
+        if self.val() > 0.0 {
+            self
+        } else {
+            Self::zero()
+        }
+    }
     /// logistic function (overridable: the magnitude scalar bounds the terms of s * (1 - s), not their difference)
     fn sigmoid(self) -> Self {
         Self::c(1.0) / (Self::c(1.0) + (-self).exp())
@@ -186,6 +194,9 @@ impl<B: Sc> Sc for Dual<B> {
         let sv = self.v.sigmoid();
         Dual { v: sv, d: sv * (B::c(1.0) - sv) * self.d }
     }
+    fn ste_relu(self) -> Dual<B> {
+        Dual { v: self.v.ste_relu(), d: self.d }
+    }
 }
 pub type D64 = Dual<f64>;
 
@@ -254,6 +265,9 @@ impl Sc for DA {
         // smaller than either, and its rounding error is relative to the terms
         let s = stable_sigmoid(self.v);
         DA { v: s, a: s * (1.0 + s) * self.a }
+    }
+    fn ste_relu(self) -> DA {
+        DA { v: if self.v > 0.0 { self.v } else { 0.0 }, a: self.a }
     }
 }
 
